@@ -20,9 +20,11 @@ EV_CLASS = {
     "TTake": "C01", "TCopied": "C01", "CopyFail": "C01", "HEnd": "C01", "HPubAck": "C01", "TPutAck": "C01",
     "TPutEnd": "C01",
     "TPutBegin": "C12",
-    "IFStart": "C04", "TouchCalc": "C04", "DefStart": "C04", "ScanIF": "C04", "ScanDef": "C04", "ReqClamp": "C04",
+    # an in-flight message taken from its holder before its deadline is a timing fault (C04) AND a redelivery the
+    # holder did nothing to cause (C02); a TOUCH that does not move the deadline the way it should likewise
+    "IFStart": "C04+C02", "TouchCalc": "C04+C02", "DefStart": "C04", "ScanIF": "C04+C02", "ScanDef": "C04", "ReqClamp": "C04",
     "Send": "C07", "HRecv": "C07",
-    "HStatsC": "C13", "HStatsK": "C13", "HStatsT": "C13",
+    "HStatsC": "C13", "HStatsK": "C13", "HStatsT": "C13", "HStatsTopics": "C13",
     "EmptyBegin": "C08", "EmptyEnd": "C08", "IFReset": "C08", "DefReset": "C08", "CDeleted": "C08",
     "ReqExiting": "C08", "CMapAdd": "C08", "CCreated": "C08", "CDeleteBegin": "C08", "CExit": "C08",
     "KSample": "C01",
@@ -152,7 +154,7 @@ def validate_runs(ctx, prop, runs, what):
             shutil.copy(r["trace"], dst)
             msg = "run {%s}: recorded execution of the real nsqd is not a behaviour of NsqdAbs at event %s: %s" % (
                 r["scenario"], ev, detail)
-            if cls == prop:
+            if prop in cls.split("+"):
                 ctx.violation(msg, dst, key="trace:%s" % ev)
             else:
                 print("OTHER-PROPERTY: this run breaks a clause of %s (event %s), not of %s; run not counted"
@@ -316,7 +318,7 @@ def repo_tests(ctx, prop, lanes=3):
         import shutil
         shutil.copy(r["trace"], dst)
         msg = "%s: its recorded execution is not a behaviour of NsqdAbs at event %s (3 of 3 runs): %s" % (r["scenario"], ev, detail)
-        if cls == prop:
+        if prop in cls.split("+"):
             ctx.violation(msg, dst, key="repotest:%s:%s" % (r["test"], ev))
         else:
             print("OTHER-PROPERTY: %s breaks a clause of %s (event %s), not of %s" % (r["scenario"], cls, ev, prop), flush=True)
